@@ -36,6 +36,9 @@ CLAIMS = {
  "C17": (TECH2,
          "Index arithmetic decided for all integers by z3 on the AST translation. With re.split stubbed by its contract (symbolic parts of any unicode content, <= 1-2 chars each, one or two markers) CrossHair confirms over all paths the chunk / prefix texts, line offset = newlines before the section, not_enough_sections instead of an error past the end, syntax-error lines shifted to whole-file numbering, and restoration of the original text by stop_sections()/resolve, for independent and cumulative mode and 0-4 next_section calls.",
          "re.split and the parser are stubs constrained by their contracts; TIFA/sandbox locations inside sections are outside the claim", "DESIGN.md §3 C17"),
+ "C19": (TECH,
+         "For every binary operator and comparison, every ordered operand pair from a grid of ints (incl. negatives), floats, strings, lists and tuples is enumerated by the solver through pedal's real operator table and through tifa_analysis, against CPython evaluating the same operands (TypeError => reported; otherwise the inferred type admits the real result); value typing is decided by CrossHair over symbolic scalars, lists, tuples, dicts and nested lists (stable, conforming). Value-dependent Pow cells are recorded known findings.",
+         "operand grids are finite menus; CPython is the reference side; CrossHair/z3 models", "DESIGN.md §3 C19"),
  "C20": (TECH,
          "Within the bounds (one instructor-defined feedback with every condition outcome x keyword combination; ordered pairs of core commands; 5 templates x 2 formatters; all 3-step override sequences over a class, an inheriting subclass and an unrelated class followed by clear/contextualize) CrossHair confirms over all paths the recorded-once / truthful / rendered-from-fields / restored oracle.",
          "field values for rendering come from a 4-value menu; CrossHair/z3 models; harness oracle", "DESIGN.md §3 C20"),
